@@ -19,6 +19,19 @@ mod tests {
     use crate::{Position, language_parsers::Comment};
 
     #[test]
+    fn comment_syntax_inside_string_literals_is_not_a_comment() -> anyhow::Result<()> {
+        let mut comments_parser = comments_parser()?;
+
+        let comments: Vec<Comment> = comments_parser
+            .parse("let a = \"/* not a comment */\"\nlet m = \"\"\"\n/* nor this */\n\"\"\"\n/* a comment */\n")
+            .collect();
+
+        assert_eq!(comments.len(), 1);
+        assert!(comments[0].comment_text.contains("a comment"));
+        Ok(())
+    }
+
+    #[test]
     fn parses_swift_comments_correctly() -> anyhow::Result<()> {
         let mut comments_parser = comments_parser()?;
 
